@@ -24,7 +24,9 @@ vars == <<s, ci, pol, enc, dec, done>>
 (* "\n\n" -- recorded as a known finding of C08, such runs other than "\n\n" itself are not generated  *)
 IsWs(c) == c \in {32, 10, 9, 160} /\ c # 160
 RunOK(w, i, j) ==   \* maximal whitespace run w[i..j]
-    LET nls == Cardinality({ k \in i..j : w[k] = 10 }) IN nls < 2 \/ (j - i + 1 = 2)
+    \* fewer than two newlines, or exactly two adjacent ones (blanks before the first / after the last newline are kept)
+    LET nl == { k \in i..j : w[k] = 10 } IN
+    Cardinality(nl) < 2 \/ (Cardinality(nl) = 2 /\ \E k \in nl : k + 1 \in nl)
 NoOddParagraph(w) == \A i \in 1..Len(w), j \in 1..Len(w) :
     (i <= j /\ (\A k \in i..j : IsWs(w[k])) /\ (i = 1 \/ ~IsWs(w[i - 1])) /\ (j = Len(w) \/ ~IsWs(w[j + 1]))) => RunOK(w, i, j)
 NoLigature(w) == \A i \in 1..(Len(w) - 1) : <<w[i], w[i + 1]>> \notin Ligatures
